@@ -995,8 +995,13 @@ try_header_64(struct setup_data *sdp, struct disk_dump_header_64 *dh)
 	return ret;
 }
 
+/** Revalidate the memory pagemap with the cache lock held.
+ * @param ctx   Dump file object.
+ * @param attr  Memory pagemap attribute.
+ * @returns     Error status.
+ */
 static kdump_status
-mem_pagemap_revalidate(kdump_ctx_t *ctx, struct attr_data *attr)
+mem_pagemap_revalidate_locked(kdump_ctx_t *ctx, struct attr_data *attr)
 {
 	struct disk_dump_priv *ddp = ctx->shared->fmtdata;
 	attr_revalidate_fn *parent_revalidate;
@@ -1030,6 +1035,28 @@ mem_pagemap_revalidate(kdump_ctx_t *ctx, struct attr_data *attr)
 		ddp->mem_pagemap_override.ops.revalidate = parent_revalidate;
 		attr->flags.invalid = 0;
 	}
+	return status;
+}
+
+/** Revalidate the memory pagemap.
+ * @param ctx   Dump file object.
+ * @param attr  Memory pagemap attribute.
+ * @returns     Error status.
+ *
+ * Attributes are revalidated under the shared read lock, so other clones
+ * may be using the file cache, or revalidating this very attribute, at
+ * the same time. The cache lock serializes both.
+ */
+static kdump_status
+mem_pagemap_revalidate(kdump_ctx_t *ctx, struct attr_data *attr)
+{
+	kdump_status status;
+
+	mutex_lock(&ctx->shared->cache_lock);
+	status = attr->flags.invalid
+		? mem_pagemap_revalidate_locked(ctx, attr)
+		: KDUMP_OK;
+	mutex_unlock(&ctx->shared->cache_lock);
 	return status;
 }
 
